@@ -35,6 +35,8 @@ def ref_format(node: int, child: int, command: int, ack: int, mtype: int, payloa
 def classify_numeric(text: str) -> tuple[str, int | None]:
     """Return (class, value): canonical / grey (int() parses, odd spelling) / nonint."""
     if _CANON.match(text) and text != "-0":
+        if len(text) > 4000:
+            return "huge", None  # beyond the interpreter's int<->str limit: an integer, but far outside every range
         return "canonical", int(text)
     try:
         value = int(text)
@@ -71,10 +73,16 @@ def ref_verdict(line: str) -> dict:
         cls, val = classify_numeric(text)
         if cls == "nonint":
             return {"verdict": "reject", "rule": f"nonint@{pos}", "values": None, "rest": None}
+        if cls == "huge":
+            if pos < 4:
+                return {"verdict": "reject", "rule": f"range@{pos}", "values": None, "rest": None}
+            grey = True  # a type number of thousands of digits: accepting or rejecting is not demanded
         if cls == "grey":
             grey = True
         values.append(val)  # type: ignore[arg-type]
     node, child, command, ack, mtype = values
+    if mtype is None:
+        mtype = 10**9
     rule = "ok"
     if not 0 <= node <= 255:
         rule = "node-range"
